@@ -1,6 +1,6 @@
 (* C20_storage_read — reading release records whose bodies are arbitrary bytes.
-   Transcribes pkg/storage/driver/secrets.go and cfgmaps.go (Get :64/:66, List :86/:89,
-   Query :117/:120 — the two files have the same control flow), util.go decodeRelease as a
+   Transcribes pkg/storage/driver/secrets.go and cfgmaps.go (Get :64/:64, List :85/:89,
+   Query :116/:121 — the two files have the same control flow), util.go decodeRelease as a
    Section variable (base64 + gzip + JSON are third-party: ANY function B -> option srel),
    pkg/storage/storage.go (ListDeployed/ListUninstalled :96-:110, Deployed :114, Last :230)
    and pkg/release/util/filter.go (Check :26, StatusFilter :71).
